@@ -398,6 +398,36 @@ def z4(prog, rep):
                       function=f.name, construct="free(*%s)" % sp["name"])
     if n == 0:
         raise cdb.AnalysisBroken("Z4: aws_readkeys no longer frees *key_secret anywhere")
+    # any other heap copy of a line's value (a local that receives strdup() of it) may be the secret -- or a secret under a
+    # misspelt name: it is released only wiped over its length, or where the line's name has been seen to be the key id's
+    locs = {}
+    for e in f.all_elems():
+        if e.is_assign and e.op == "=" and e.kid(1) is not None and e.kid(1).strip() is not None and e.kid(1).strip().cls == "CallExpr" and e.kid(1).strip().callee in ("strdup", "strndup", "malloc"):
+            t = norm(e.kid(0))
+            if t[0] == "v" and len(t) > 2:
+                locs[t[2]] = t
+        elif e.cls == "DeclStmt":
+            for d in e.decls or []:
+                if isinstance(d, dict) and d.get("init") and norm(f.elem(d["init"]))[0] == "call" and norm(f.elem(d["init"]))[1] in ("strdup", "strndup", "malloc"):
+                    locs[d["id"]] = ("v", d["name"], d["id"])
+    for vid, V in locs.items():
+        def tr2(st, e, V=V):
+            if e.cls == "CallExpr" and e.callee == WIPE and e.arg(0) is not None and norm(e.arg(0)) == V and norm(e.arg(1)) == ("call", "strlen", V):
+                return "wiped"
+            if e.is_assign and norm(e.kid(0)) == V:
+                return "dirty"
+            return st
+        s2 = Solver(f, "none", tr2, None, lambda a, b: a if a == b else "dirty").run()
+        for c in f.calls("free"):
+            if norm(c.arg(0)) != V:
+                continue
+            st = s2.state_before(c)
+            isid = any(op == "==" and R == ("c", 0) and L[0] == "call" and L[1] in ("strcmp", "strncmp") and ("s", b"ACCESS_KEY_ID") in L[2:4]
+                       for cond, truth in f.edge_conds(c) for op, L, R, _, _ in cond_atoms(cond, truth))
+            rep.check(st in ("wiped", "none", None) or isid, "Z4-secret", "free(%s): a copy of a line's value" % V[1], c.where,
+                      "this copy of a key-file line's value is released without insecure_memzero(%s, strlen(%s)) on a path on which the line's name is not known "
+                      "to be ACCESS_KEY_ID: when it is the secret (given twice, or under a misspelt name) its bytes stay in the freed block" % (V[1], V[1]),
+                      function=f.name, construct="free(%s)" % V[1])
 
 
 # --------------------------------------------------------------------------
